@@ -613,3 +613,75 @@ Example storage_src_runs :
   option_map fst (run_acc storage_src "set_treepath_memo" [SVInt 0; SVStr "S"] s4) = Some (SRExn XAnnotation) /\
   option_map fst (run_acc storage_src "pop_shape_memo" [] s0) = Some (SRExn XAttribute).
 Proof. vm_compute. repeat split. Qed.
+
+(* ---------- every state the accessors can reach is well-formed ---------- *)
+Definition frame_ok (v : sval) : Prop := exists a b c d, v = SVTuple [SVDict a; SVDict b; SVDict c; SVDict d].
+Definition wf_state (s : tls) : Prop := wf_cells s /\ Forall frame_ok (stack_or_nil s).
+
+Lemma wf_state_top s : wf_state s -> wf_top s.
+Proof.
+  intros [_ F]. destruct s as [[[|x l]|] pa fl]; try (left; reflexivity). right.
+  destruct (@exists_last _ (x :: l)) as [r0 [y E]]; [discriminate|].
+  cbn [stack_or_nil t_stack] in F. rewrite E in F. apply Forall_app in F. destruct F as [_ F]. inversion F as [|? ? [a [b [c [d ->]]]] _]; subst.
+  exists r0, a, b, c, d. cbn. rewrite E. reflexivity.
+Qed.
+
+Fixpoint state_after (m : smodule) (ops : list sop) (s : tls) : tls :=
+  match ops with
+  | [] => s
+  | o :: r => let '(f, args) := op_call o in
+              match run_acc m f args s with Some (_, s') => state_after m r s' | None => s end
+  end.
+
+Lemma Forall_removelast {A} (P : A -> Prop) (l : list A) : Forall P l -> Forall P (removelast l).
+Proof. induction 1 as [|x l Hx Hl IH]; [constructor|]. destruct l; [constructor|]. cbn. constructor; assumption. Qed.
+
+Lemma op_preserves_wf o s : wf_state s ->
+  let '(f, args) := op_call o in
+  match run_acc context_src f args s with Some (_, s') => wf_state s' | None => True end.
+Proof.
+  intros [[W1 W2] F]. destruct o; cbn [op_call].
+  - (* has *) destruct s as [[[|x l]|] pa fl]; cbn; (split; [split|]; assumption).
+  - (* get *) destruct (run_acc context_src "get_shape_memo" [] s) as [[r s']|] eqn:R; [|exact I].
+    assert (s' = s).
+    { destruct (nonempty s) eqn:N.
+      - destruct s as [[[|x l]|] pa fl]; try discriminate.
+        destruct (@exists_last _ (x :: l)) as [r0 [y E]]; [discriminate|].
+        assert (L : last (x :: l) SVNone = y) by (rewrite E; apply last_app_one).
+        unfold run_acc, run_fun in R. cbn -[last] in R. rewrite L in R.
+        destruct y as [| | | | |[|a [|b [|c [|d [|e t]]]]]| |]; cbn in R; injection R; auto.
+      - destruct s as [[[|x l]|] pa fl]; try discriminate; cbn in R; injection R; auto. }
+    subst s'. split; [split|]; assumption.
+  - (* set *) destruct s as [[[|x l]|] pa fl]; cbn -[set_last]; try (split; [split|]; assumption).
+    split; [split; assumption|]. cbn [stack_or_nil t_stack with_stack] in *. unfold set_last. apply Forall_app. split.
+    + apply Forall_removelast. exact F.
+    + constructor; [|constructor]. exists a, b, c, d. reflexivity.
+  - (* push *) destruct s as [[l|] pa fl]; cbn; (split; [split; assumption|]); cbn [stack_or_nil t_stack] in *.
+    + apply Forall_app. split; [exact F|]. constructor; [|constructor]. exists DEmpty, DEmpty, DEmpty, d. reflexivity.
+    + constructor; [|constructor]. exists DEmpty, DEmpty, DEmpty, d. reflexivity.
+  - (* pop *) destruct s as [[[|x l]|] pa fl]; cbn -[removelast]; try (split; [split|]; assumption).
+    split; [split; assumption|]. cbn [stack_or_nil t_stack with_stack] in *. apply Forall_removelast. exact F.
+  - (* clearpath *) cbn. split; [split; [right; left; reflexivity | exact W2] | exact F].
+  - (* setpath *) destruct i as [z|]; destruct s as [st [[]|] fl]; cbn; try (split; [split|]; assumption);
+      (split; [split; [right; right; eexists; reflexivity | exact W2] | exact F]).
+  - (* getpath *) destruct s as [st [[]|] fl]; cbn; (split; [split|]; assumption).
+  - (* clearflat *) cbn. split; [split; [exact W1 | right; eexists; reflexivity] | exact F].
+  - (* setflat *) cbn. split; [split; [exact W1 | right; eexists; reflexivity] | exact F].
+  - (* getflat *) destruct s as [st pa [v|]]; cbn; (split; [split|]; assumption).
+  - (* enter *) destruct s as [[l|] pa fl]; cbn; (split; [split; assumption|]); cbn [stack_or_nil t_stack] in *.
+    + apply Forall_app. split; [exact F|]. constructor; [|constructor]. exists DEmpty, DEmpty, DEmpty, DEmpty. reflexivity.
+    + constructor; [|constructor]. exists DEmpty, DEmpty, DEmpty, DEmpty. reflexivity.
+  - (* exit *) destruct s as [[[|x l]|] pa fl]; cbn -[removelast]; try (split; [split|]; assumption).
+    split; [split; assumption|]. cbn [stack_or_nil t_stack with_stack] in *. apply Forall_removelast. exact F.
+Qed.
+
+Theorem reachable_states_are_well_formed ops :
+  wf_state (state_after context_src ops (mktls None None None)) /\ wf_top (state_after context_src ops (mktls None None None)).
+Proof.
+  assert (G : forall ops s, wf_state s -> wf_state (state_after context_src ops s)).
+  { clear ops. induction ops as [|o r IH]; intros s W; [exact W|]. cbn [state_after].
+    pose proof (op_preserves_wf o s W) as P. destruct (op_call o) as [f args].
+    destruct (run_acc context_src f args s) as [[res s']|]; [apply IH; exact P | exact W]. }
+  assert (W0 : wf_state (mktls None None None)) by (split; [exact wf_initial | constructor]).
+  split; [|apply wf_state_top]; apply G; exact W0.
+Qed.
